@@ -1,0 +1,50 @@
+//go:build verif
+
+// Contracts for property C10 (aggregation slice): a bound that is built by folding Rect.Union over the bounds of
+// components contains every component bound. The component bounds themselves (cell, loop, cap bounds and their
+// error constants) are floating-point numerical analysis and are NOT decided. The fold is proved with floats opaque, from the contracts of
+// Rect.Union and EmptyRect (themselves proved in exact IEEE under C19); the probe point (lat, lng) is a ghost handed down to them. Comment-only; build tag verif.
+
+package s2
+
+//@ property C10
+
+// the lat-lng bound of a cell union contains the bound of each of its cells
+//@ func (cu *CellUnion) RectBound() Rect
+//@   ghost k int, lat float64, lng float64
+//@   requires 0.6 < poleMinLat && poleMinLat < 0.62
+//@   requires cu != nil && vcLL(lat, lng) && vcRectConsts() && 0 <= k && k < len(*cu) && (forall j int :: 0 <= j && j < len(*cu) ==> vcValid((*cu)[j]))
+//@   ensures [covers-each-cell] vcInRect(CellFromCellID((*cu)[k]).RectBound(), lat, lng) ==> vcInRect(result, lat, lng)
+//@   ensures [valid] result.IsValid()
+//@   loop 1 (rangeindex int, bound Rect): invariant [valid] bound.IsValid()
+//@   loop 1: invariant [consts] vcRectConsts() && 0.6 < poleMinLat && poleMinLat < 0.62
+//@   loop 1: invariant [covered-so-far] k <= rangeindex && vcInRect(CellFromCellID((*cu)[k]).RectBound(), lat, lng) ==> vcInRect(bound, lat, lng)
+
+//@ property C10 C15
+
+// the bound of a multi-loop polygon contains the bound of every shell (non-hole loop), and its sub-region bound is the one
+// derived from it; the vertex count is the sum over the loops
+//@ spec func vcVertexTotal(p *Polygon, k int) int = vcIf(k <= 0, 0, vcVertexTotal(p, k-1)+len(p.loops[k-1].vertices))
+//@   decreases k
+
+//@ func (p *Polygon) initLoopProperties()
+//@   ghost k int, lat float64, lng float64
+//@   requires p != nil && (forall j int :: 0 <= j && j < len(p.loops) ==> p.loops[j] != nil)
+//@   modifies *p
+//@   noframe
+//@   ensures [bound-covers-shells] (forall j int :: 0 <= j && j < len(p.loops) ==> p.loops[j].bound.IsValid()) && vcLL(lat, lng) && 0 <= k && k < len(p.loops) && !p.loops[k].IsHole() && vcInRect(p.loops[k].bound, lat, lng) ==> vcInRect(p.bound, lat, lng)
+//@   ensures [sub-bound] vcSame(p.subregionBound, ExpandForSubregions(p.bound))
+//@   ensures [vertex-count] p.numVertices == vcVertexTotal(p, len(p.loops))
+//@   ensures [indexed] p.index != nil && vcSI(p.index) && p.index.nextID == 1
+//@   loop 1 (rangeindex int): invariant [loops] p != nil && (forall j int :: 0 <= j && j < len(p.loops) ==> p.loops[j] != nil)
+//@   loop 1: invariant [valid] (forall j int :: 0 <= j && j < len(p.loops) ==> p.loops[j].bound.IsValid()) ==> p.bound.IsValid()
+//@   loop 1: invariant [covered-so-far] (forall j int :: 0 <= j && j < len(p.loops) ==> p.loops[j].bound.IsValid()) && vcLL(lat, lng) && 0 <= k && k <= rangeindex && !p.loops[k].IsHole() && vcInRect(p.loops[k].bound, lat, lng) ==> vcInRect(p.bound, lat, lng)
+//@   loop 1: invariant [count] p.numVertices == vcVertexTotal(p, rangeindex+1)
+
+//@ func (p *Polygon) initOneLoop()
+//@   requires p != nil && len(p.loops) >= 1 && (forall j int :: 0 <= j && j < len(p.loops) ==> p.loops[j] != nil)
+//@   modifies *p, p.loops[0].depth
+//@   noframe
+//@   ensures [bound-is-the-loops] vcSame(p.bound, p.loops[0].bound)
+//@   ensures [sub-bound] vcSame(p.subregionBound, ExpandForSubregions(p.bound))
+//@   ensures [vertex-count] p.numVertices == len(p.loops[0].vertices)
